@@ -30,9 +30,10 @@ Theorem c03_qubits : forall nq c, wf_circ nq c = true ->
   /\ forall q, q < nq -> index_of q (new_qubits nq c) = Some (final_position c q).
 Proof. exact new_qubits_full. Qed.
 
-(* registers, classical bits: carried over unchanged (identity in the model; compared with the
-   implementation by the correspondence check) *)
-Theorem c03_registers : forall fac nq nc qregs cregs c,
+(* registers, classical bits: NO PROOF CONTENT.  transform_cut_wires returns its own arguments qregs/nc/cregs; this
+   statement only names the fields of the model's result.  The "registers kept" clause of the property is tied to the
+   implementation by the correspondence check (chk_cut) and judged by harness/c03.py only. *)
+Theorem c03_registers_model_identity : forall fac nq nc qregs cregs c,
   let r := transform_cut_wires fac nq nc qregs cregs c in
   cr_qubits r = new_qubits nq c /\ cr_qregs r = qregs /\ cr_nclbits r = nc /\ cr_cregs r = cregs /\
   cr_data r = cut_wires_gen fac nq c.
@@ -71,14 +72,16 @@ Proof. intros; apply tcw_select_inserted. Qed.
 Theorem c03_semantics : forall nq nc c, wf_circ nq c = true ->
   let t  := denote nq nc (erase_markers c) in
   let t' := denote (nq + count_markers c) nc (cut_wires_moves nq c) in
-  (forall q, q < nq -> wire t' (final_position c q) = wire t q) /\
+  (forall q, q < nq -> final_position c q < nq + count_markers c /\ wire t' (final_position c q) = wire t q) /\
   (forall j, (forall q, q < nq -> j <> final_position c q) -> wire t' j = Zero) /\
   hc t' = hc t.
-Proof. exact semantics_full. Qed.
+Proof. exact semantics_full_bounded. Qed.
 
-(* the cut_wires form: whatever operation the factory inserted (the Qpd2 "cut_move" placeholder), executing the
-   inserted operations as Moves gives literally the _transform_cuts_to_moves circuit ... *)
-Theorem c03_cut_wires_as_moves : forall fac nq c,
+(* the cut_wires form.  NEAR-DEFINITIONAL (hence _def): exec_inserted_as_moves overwrites the operation at the marker
+   positions of the INPUT with Move whatever the factory put there, so this holds for any fac; it says that
+   cut_wires_gen differs from the Move form only in the operation at those positions.  That the placeholder of
+   cut_wires IS a cut Move is not a statement of C03 (only its coefficient table is tied, c03_facts). *)
+Theorem c03_cut_wires_as_moves_def : forall fac nq c,
   exec_inserted_as_moves c (cut_wires_gen fac nq c) = cut_wires_moves nq c.
 Proof. exact exec_inserted_cut_wires. Qed.
 
@@ -88,8 +91,8 @@ Theorem c03_unwrap : forall fac nq c, (forall i, In i c -> op_beq (iop i) fac = 
   map (unwrap fac) (cut_wires_gen fac nq c) = cut_wires_moves nq c.
 Proof. exact unwrap_cut_wires. Qed.
 
-(* ... hence c03_semantics holds for cut_wires' own output, for every factory *)
-Theorem c03_semantics_cut_wires : forall fac nq nc c, wf_circ nq c = true ->
+(* corollary (no new content): c03_semantics rewritten along c03_cut_wires_as_moves_def *)
+Theorem c03_semantics_cut_wires_cor : forall fac nq nc c, wf_circ nq c = true ->
   let t  := denote nq nc (erase_markers c) in
   let t' := denote (nq + count_markers c) nc (exec_inserted_as_moves c (cut_wires_gen fac nq c)) in
   (forall q, q < nq -> wire t' (final_position c q) = wire t q) /\
@@ -102,20 +105,26 @@ Theorem c03_markers_transparent : forall nq nc c, denote nq nc c = denote nq nc 
 Proof. exact denote_erase. Qed.
 
 (* Move's side condition (instructions/move.py: the destination must be unentangled): at the moment
-   an inserted Move executes, its destination wire is still |0> *)
+   an inserted Move executes, its destination wire is still |0> - and the destination is a real position of the
+   result (inside the marker qubit's block, below the number of qubits), so the |0> is not the out-of-range default
+   of [wire] *)
 Theorem c03_move_targets_fresh : forall nq nc c c1 i c2,
   wf_circ nq c = true -> c = c1 ++ i :: c2 -> is_marker i = true ->
   let p := position_after c c1 (marker_qubit i) in
-  wire (denote (nq + count_markers c) nc (tcw Move (fst (structure_mapping nq c)) c1)) (p + 1) = Zero.
-Proof. exact move_target_zero. Qed.
+  let s := denote (nq + count_markers c) nc (tcw Move (fst (structure_mapping nq c)) c1) in
+  wire s (p + 1) = Zero /\
+  p + 1 <= final_position c (marker_qubit i) /\
+  final_position c (marker_qubit i) < nq + count_markers c /\
+  length (hw s) = nq + count_markers c.
+Proof. exact move_target_full. Qed.
 
 (* ---- observables ---- *)
 
 (* expand_observables (Model/Observables.v) finds original qubit q exactly at final_position c q *)
-Theorem c03_expand : forall nq c ps, wf_circ nq c = true ->
+Theorem c03_expand : forall nq c ps, wf_circ nq c = true -> (forall p, In p ps -> length (plets p) = nq) ->
   expand nq (seq 0 nq) (new_qubits nq c) ps =
   Ok (map (expand1 (map (final_position c) (seq 0 nq)) (nq + count_markers c)) ps).
-Proof. exact expand_new_qubits. Qed.
+Proof. exact expand_new_qubits_wf. Qed.
 
 (* so every expanded observable reads qubit q's letter on the wire that c03_semantics equates
    with qubit q's original wire, and the identity everywhere else *)
@@ -189,7 +198,7 @@ Theorem c03_cut_and_reconstruct_partial :
   length pds = length L ->
   (forall pd, In pd pds ->
      Reconstruct.data_len (snd pd) = length (map fst cq) * length (Reconstruct.pgroups (fst pd))) ->
-  (forall pd, In pd pds -> length (Reconstruct.plookup (fst pd)) = nobs /\ Reconstruct.locs_ok (fst pd)) ->
+  (forall pd, In pd pds -> length (Reconstruct.plookup (fst pd)) = nobs /\ locs_wf (fst pd)) ->
   (forall pd key, In pd pds -> In key (Reconstruct.keys_of (snd pd)) ->
      Reconstruct.outcome_to_int pyint0 key = Some (den key)) ->
   (forall li pd sfx z s k,
@@ -199,6 +208,37 @@ Theorem c03_cut_and_reconstruct_partial :
   Reconstruct.res_Qeq (Reconstruct.reconstruct_parts pyint0 nobs (map fst cq) pds)
                       (Ok (map (expect ev (denote nq nc (erase_markers c))) ps)).
 Proof. exact cut_and_reconstruct. Qed.
+
+(* the same composed with C01's WHOLE-CHAIN theorem c01_generated_roundtrip_partial: the coefficient list cq, the
+   projection lists L_of, the result layout results_of and the exact-results equation are those the C05 model `core`
+   of generate_cutting_experiments and an exact sampler `run` produce.  REMAINING hypotheses: physics P1, P2+P3
+   (kind: physics), exact_weights (C04, success case), agreement of generation's and reconstruction's view of the
+   observable groups and well-formed lookups (C11), integer keys.  STILL NOT PROVED: that `table`/`og` are what the
+   partition_problem model returns on cut_wires_gen fac nq c, i.e. that C = move_cuts c is the `bases` of that request
+   (a comment, tested by the e2e stream). *)
+Theorem c03_cut_and_reconstruct_generated_partial :
+  forall (ev : list (letter * wt) -> list ct -> nat -> Q) nq nc c ps,
+  wf_circ nq c = true -> (forall p, In p ps -> length (plets p) = nq) ->
+  let nobs := length ps in
+  let C := move_cuts c in
+  let Ev := fun k => expect ev (denote (nq + count_markers c) nc (cut_wires_moves nq c)) (nth k (expanded nq c ps) pI0) in
+  forall gh gsx env run den table og (W : sdict) out (cq : list (Q * wkind)),
+  Experiments.core gh gsx env C table og W = Ok (out, cq) ->
+  forall (rparts : list Reconstruct.part),
+  Forall2 (fun lg rp => length (Reconstruct.pgroups rp) = length (snd lg)) og rparts ->
+  (forall rp, In rp rparts -> length (Reconstruct.plookup rp) = nobs /\ locs_wf rp) ->
+  forall full, Forall2 (entry_ok gh gsx env table (sort_samples W)) og full ->
+  forall (term : jkey -> nat -> Q) pyint0,
+  (forall k, k < nobs ->
+     (Ev k == sumQ (map (fun ids => (coeff_prod C ids * term ids k)%Q) (all_maps (map (@length Q) C))))%Q) ->
+  (forall ids k, In ids (all_maps (map (@length Q) C)) -> k < nobs ->
+     (term ids k == part_prod (L_of (length C) table og) (E_all gh gsx env run den table og rparts) ids k)%Q) ->
+  exact_weights C W ->
+  (forall pd key, In pd (results_of run rparts full) -> In key (Reconstruct.keys_of (snd pd)) ->
+     Reconstruct.outcome_to_int pyint0 key = Some (den key)) ->
+  Reconstruct.res_Qeq (Reconstruct.reconstruct_parts pyint0 nobs (map fst cq) (results_of run rparts full))
+                      (Ok (map (expect ev (denote nq nc (erase_markers c))) ps)).
+Proof. exact cut_and_reconstruct_generated. Qed.
 
 (* ---- non-vacuity ---- *)
 
@@ -223,6 +263,18 @@ Example c03_ex_semantics :
   let t' := denote 5 0 (cut_wires_moves 2 f1_witness) in
   wire t' 2 = wire t 0 /\ wire t' 4 = wire t 1 /\ wire t 0 <> Zero /\ wire t 1 <> Zero /\
   wire t' 0 = Zero /\ wire t' 1 = Zero /\ wire t' 3 = Zero.
+Proof. vm_compute. repeat split; discriminate. Qed.
+
+(* the three inserted Moves of the F1 witness: destinations 1, 4, 2 of 5 positions, each still |0> when the Move
+   executes while the source wire carries a gate term *)
+Example c03_ex_move_targets :
+  let m0 := fst (structure_mapping 2 f1_witness) in
+  let st k := denote 5 0 (tcw Move m0 (firstn k f1_witness)) in
+  map (fun k => position_after f1_witness (firstn k f1_witness) (marker_qubit (nth k f1_witness (mkI CutWire [] []))) + 1) [1; 3; 5]
+    = [1; 4; 2] /\
+  map (fun kp => wire (st (fst kp)) (snd kp)) [(1, 1); (3, 4); (5, 2)] = [Zero; Zero; Zero] /\
+  wire (st 1) 0 <> Zero /\ wire (st 3) 3 <> Zero /\ wire (st 5) 1 <> Zero /\
+  map (fun k => length (hw (st k))) [1; 3; 5] = [5; 5; 5].
 Proof. vm_compute. repeat split; discriminate. Qed.
 
 Example c03_ex_cut_wires_form :
@@ -294,6 +346,99 @@ Proof.
   intros k Hk. destruct k as [|[|[|k]]]; try lia; vm_compute; reflexivity.
 Qed.
 
+(* FULL instance of c03_cut_and_reconstruct_partial for ExF: ALL hypotheses instantiated.
+     W     the eight maps of the Move basis with their exact probability (1/2)/4 = 1/8
+     cq    the coefficient list the C05 model computes from W
+     pds   partition A (source end of the Move): one identity group; outcome bit 1 is the QPD bit; for map i the
+           hand-written quasi-distribution of a QPD measurement with expectation src i (none for maps 0, 1);
+           partition B (destination end): groups Z, X, Y; for map i and group g the distribution of measuring the
+           prepared eigenstate
+   (P2+P3 holds by DEFINITION of term := the product; E and the distributions are written by hand from one-qubit
+   physics, not computed from a circuit semantics as C01's Ex does.)  The theorem applies and the C06 model returns the
+   values of the ORIGINAL observables Z, X, Y on the ORIGINAL one-qubit circuit: 6/7, 2/7, 3/7. *)
+Module ExFull.
+  Import Reconstruct.
+  Definition C : list (list Q) := move_cuts ExF.c.
+  Definition W : sdict := map (fun m => ([m], ((1 # 8)%Q, KExact))) (seq 0 8).
+  Definition cq : list (Q * wkind) :=
+    map (fun s => (coeff_value (total_weight W) (kappa_all C) (s_w s) [nth (nth 0 (s_ids s) 0) move_cq 0%Q], s_t s))
+        (sort_samples W).
+  Definition distA (i : nat) : list (key * Q) :=
+    if Nat.ltb i 2 then [(KInt 0, 1%Q)]
+    else [(KInt 0, Qred ((1 + ExF.src i) / 2)%Q); (KInt 2, Qred ((1 - ExF.src i) / 2)%Q)].
+  Definition distB (i g : nat) : list (key * Q) :=
+    let e := ExF.prep i (nth g [3; 1; 2] 0) in
+    [(KInt 0, Qred ((1 + e) / 2)%Q); (KInt 1, Qred ((1 - e) / 2)%Q)].
+  Definition pA : part := mkPart 0 [0; 0; 0] [(1, [0%N])] [[(0, 0)]; [(0, 0)]; [(0, 0)]].
+  Definition pB : part := mkPart 1 [0; 0; 0] [(1, [1%N]); (1, [1%N]); (1, [1%N])] [[(0, 0)]; [(1, 0)]; [(2, 0)]].
+  Definition pds : list (part * pdata) := Eval vm_compute in
+    [(pA, DV1 (map distA (seq 0 8)));
+     (pB, DV1 (flat_map (fun i => [distB i 0; distB i 1; distB i 2]) (seq 0 8)))].
+  Definition den (k : key) : N := match outcome_to_int pyint0_ref k with Some n => n | None => 0%N end.
+End ExFull.
+
+Example c03_ex_clause_f_bookkeeping :
+  exact_weights ExFull.C ExFull.W /\
+  Forall2 (fun s c0 => exists cs, chosen_coeffs ExFull.C (s_ids s) = Ok cs /\
+                                  c0 = (coeff_value (total_weight ExFull.W) (kappa_all ExFull.C) (s_w s) cs, s_t s))
+          (sort_samples ExFull.W) ExFull.cq /\
+  list_beq Qeq_bool (map fst ExFull.cq) move_cq = true.
+Proof.
+  split; [|split].
+  - split; [|split].
+    + vm_compute. repeat constructor; simpl; intuition discriminate.
+    + intros s Hs. vm_compute in Hs.
+      repeat (destruct Hs as [<-|Hs]; [split; [vm_compute; tauto|vm_compute; reflexivity]|]). destruct Hs.
+    + intros ids Hin _. vm_compute in Hin. vm_compute. tauto.
+  - unfold ExFull.cq. change (sort_samples ExFull.W) with (map (fun m => ([m], ((1 # 8)%Q, KExact))) (seq 0 8)).
+    cbn [seq map]. repeat constructor; (eexists; split; [reflexivity|reflexivity]).
+  - vm_compute. reflexivity.
+Qed.
+
+Example c03_ex_clause_f_results :
+  length ExFull.pds = length ExF.L /\
+  (forall pd, In pd ExFull.pds ->
+     Reconstruct.data_len (snd pd) = length (map fst ExFull.cq) * length (Reconstruct.pgroups (fst pd))) /\
+  (forall pd, In pd ExFull.pds -> length (Reconstruct.plookup (fst pd)) = 3 /\ locs_wf (fst pd)) /\
+  (forall pd key, In pd ExFull.pds -> In key (Reconstruct.keys_of (snd pd)) ->
+     Reconstruct.outcome_to_int Reconstruct.pyint0_ref key = Some (ExFull.den key)) /\
+  (forall li pd sfx z s k,
+     nth_error ExFull.pds li = Some pd -> nth_error ExF.L li = Some sfx ->
+     nth_error (sort_samples ExFull.W) z = Some s -> k < 3 ->
+     (Reconstruct.E ExFull.den pd z k == ExF.E li (project_ids sfx (s_ids s)) k)%Q).
+Proof.
+  split; [reflexivity|split; [|split; [|split]]].
+  - intros pd [<-|[<-|[]]]; vm_compute; reflexivity.
+  - intros pd [<-|[<-|[]]]; (split; [reflexivity|]); (split;
+      [intros locs m n HL HM; cbn in HL;
+       repeat (destruct HL as [<-|HL]; [cbn in HM; repeat (destruct HM as [HM|HM]; [inversion HM; subst; cbn; lia|]); destruct HM|]);
+       destruct HL
+      |intros locs HL; cbn in HL; repeat (destruct HL as [<-|HL]; [discriminate|]); destruct HL]).
+  - intros pd key [<-|[<-|[]]] HK; vm_compute in HK;
+      repeat (destruct HK as [<-|HK]; [reflexivity|]); destruct HK.
+  - intros li pd sfx z s k Hpd Hsfx Hs Hk.
+    destruct li as [|[|li]]; [| |destruct li; discriminate]; inversion Hpd; inversion Hsfx; subst; clear Hpd Hsfx;
+      (destruct z as [|[|[|[|[|[|[|[|z]]]]]]]]; [| | | | | | | |destruct z; discriminate]; inversion Hs; subst; clear Hs;
+       (destruct k as [|[|[|k]]]; [vm_compute; reflexivity..|lia])).
+Qed.
+
+Example c03_ex_clause_f_full :
+  Reconstruct.res_Qeq
+    (Reconstruct.reconstruct_parts Reconstruct.pyint0_ref 3 (map fst ExFull.cq) ExFull.pds)
+    (Ok (map (expect ExF.ev (denote 1 0 (erase_markers ExF.c))) ExF.ps)) /\
+  Reconstruct.reconstruct_parts Reconstruct.pyint0_ref 3 (map fst ExFull.cq) ExFull.pds = Ok [6 # 7; 2 # 7; 3 # 7]%Q.
+Proof.
+  split; [|vm_compute; reflexivity].
+  destruct c03_ex_clause_f as (Wf & _ & _ & _ & _ & P1).
+  destruct c03_ex_clause_f_bookkeeping as (HW & Hcq & _).
+  destruct c03_ex_clause_f_results as (H1 & H2 & H3 & H4 & H5).
+  refine (c03_cut_and_reconstruct_partial ExF.ev 1 0 ExF.c ExF.ps Wf _ ExF.L
+            (fun ids k => part_prod ExF.L ExF.E ids k) ExF.E P1 _ ExFull.W ExFull.cq HW Hcq
+            Reconstruct.pyint0_ref ExFull.den ExFull.pds H1 H2 H3 H4 H5).
+  - intros p [<-|[<-|[<-|[]]]]; reflexivity.
+  - intros ids k _ _. reflexivity.
+Qed.
+
 Example c03_ex_reading :
   reading (denote 5 0 (cut_wires_moves 2 f1_witness)) [0; 0; 3; 0; 1]
   = reading (denote 2 0 (erase_markers f1_witness)) [3; 1] /\
@@ -305,15 +450,17 @@ Print Assumptions c03_observable_reading.
 Print Assumptions c03_expectation_values.
 Print Assumptions c03_reconstructed_transport.
 Print Assumptions c03_cut_and_reconstruct_partial.
+Print Assumptions c03_cut_and_reconstruct_generated_partial.
+Print Assumptions c03_ex_clause_f_full.
 Print Assumptions c03_ex_clause_f.
-Print Assumptions c03_registers.
+Print Assumptions c03_registers_model_identity.
 Print Assumptions c03_instructions.
 Print Assumptions c03_instructions_kept.
 Print Assumptions c03_instructions_inserted.
 Print Assumptions c03_semantics.
-Print Assumptions c03_cut_wires_as_moves.
+Print Assumptions c03_cut_wires_as_moves_def.
 Print Assumptions c03_unwrap.
-Print Assumptions c03_semantics_cut_wires.
+Print Assumptions c03_semantics_cut_wires_cor.
 Print Assumptions c03_markers_transparent.
 Print Assumptions c03_move_targets_fresh.
 Print Assumptions c03_expand.
@@ -323,15 +470,20 @@ Print Assumptions c03_expand_letters.
    and expand_observables has the two modelled in Model/Observables.v *)
 From CKT Require Import Extracted.Facts.
 From Coq Require Import String.
-Definition sites_of (f : string) : nat :=
-  match find (fun p => String.eqb (fst p) f) value_error_sites with Some p => snd p | None => 0 end.
+(* absence-aware: c03_function_sites (tools/facts_c03.py) lists EVERY function of wire_cutting_transforms.py with its
+   number of `raise ValueError` sites, zero included; a renamed, deleted or misspelt function is a missing key = None *)
+Definition sites_of (f : string) : option nat :=
+  option_map snd (find (fun p => String.eqb (fst p) f) c03_function_sites).
 Theorem c03_facts :
-  sites_of "wire_cutting_transforms:cut_wires" = 0 /\
-  sites_of "wire_cutting_transforms:_transform_cuts_to_moves" = 0 /\
-  sites_of "wire_cutting_transforms:_transform_cut_wires" = 0 /\
-  sites_of "wire_cutting_transforms:_circuit_structure_mapping" = 0 /\
-  sites_of "wire_cutting_transforms:expand_observables" = 2 /\
+  sites_of "cut_wires" = Some 0 /\
+  sites_of "_transform_cuts_to_moves" = Some 0 /\
+  sites_of "_transform_cut_wires" = Some 0 /\
+  sites_of "_circuit_structure_mapping" = Some 0 /\
+  sites_of "expand_observables" = Some 2 /\
+  sites_of "no_such_function" = None /\
+  (* and the shared fact agrees on the one function it lists for this module *)
+  In ("wire_cutting_transforms:expand_observables", 2) value_error_sites /\
   (* the coefficient list used for clause f is the Move table of qpd/decompositions.py (C02: c02_source_tables) *)
   move_table_coeffs = move_cq.
-Proof. repeat split; reflexivity. Qed.
+Proof. repeat split; try reflexivity. vm_compute. tauto. Qed.
 Print Assumptions c03_facts.
